@@ -208,6 +208,11 @@ func (a *Act) noteSend(st *State, ch ssa.Value, chT, val Term, cond Term, pos to
 		}
 		a.oblige(st, "chan/redeposit", pos, cond, Or(alts...), nil)
 	}
+	// single depositor: the outcome slots are written by the body's goroutine (once, ghost counter) and by
+	// deref's re-deposit only; a send anywhere else would give readers a second, different outcome
+	if fa, ok := chanField(ch); ok && (fa.name == "ValChan" || fa.name == "ErrChan") && !strings.Contains(fname, "NewFuture$") && !strings.HasSuffix(fname, "Future).Deref") {
+		a.oblige(st, "chan/single-depositor", pos, cond, "false", nil)
+	}
 	// publish order: when the outcome is sent (from then on a deref can return) Done is already true
 	if fa, ok := chanField(ch); ok && (fa.name == "ValChan" || fa.name == "ErrChan") && strings.Contains(fname, "NewFuture$") {
 		base := a.lvOf(st, fa.base)
